@@ -1027,6 +1027,14 @@ func TestShapes(t *testing.T) {
 // ---------- replay / regressions / known findings ----------
 
 func replayFile(t *testing.T, path string) {
+	if ev.ReplayTest(path) == "TestEntryPoints" {
+		var c entryCase
+		if _, err := ev.LoadReplay(path, &c); err != nil {
+			t.Fatalf("load %s: %v", path, err)
+		}
+		checkEntry(t, "TestEntryPoints", &c)
+		return
+	}
 	var pay payload
 	test, err := ev.LoadReplay(path, &pay)
 	if err != nil {
